@@ -77,7 +77,7 @@ def run(ctx: Context) -> None:
             ds_c = flow.canon(src.args[0]) if ok_src else None
             want_a = ('call', ('attr', ('param', 'self'), 'drop_geometry'), (), ())
             want_b = ('attr', ('param', 'self'), 'dataset')
-            ok_ds = ds_c is not None and ds_c[0] == 'phi' and set(ds_c[1:]) == {want_a, want_b}
+            ok_ds = ok_src and set(flow.alternatives(src.args[0])) == {want_a, want_b}
             ctx.check('R05.1', ok_src and ok_ds, "the source is self.drop_geometry() or self.dataset, reduced by utils.extract_vars", fi, rets[0],
                       construct=f"source dataset = {norm_text(src)[:110]}")
             # which branch drops geometry
